@@ -440,6 +440,48 @@ def h_added_geometry(eng, resname, ff):
             eng.check(bool(dmin > 0.5), "no-coincident-atoms", note=f"{r} {a.name} is {dmin:.2f} A from {who}")
 
 
+WATER_SITES = {
+    "contact": [(3.0, 8.0, 2.0)],
+    "isolated": [(40.0, 42.0, 44.0)],
+    "isolated-pair": [(40.0, 42.0, 44.0), (42.8, 42.0, 44.0)],
+    "contact-and-isolated": [(3.0, 8.0, 2.0), (-30.0, 5.0, 61.0)],
+}
+
+
+def h_added_water(eng, ff):
+    """water hydrogens: bond lengths and the H-H separation of the water template, wherever the water sits
+    (in contact with the protein, isolated, next to another water only), for every option combination"""
+    from pdb2pqr import main, utilities
+
+    site = list(WATER_SITES)[eng.choice("water_site", len(WATER_SITES))]
+    opt, debump = eng.flag("opt"), eng.flag("debump")
+    lines = [ln for ln in fixtures.peptide_lines(["ALA", "SER", "ALA"]) if not ln.startswith("END")]
+    for k, (x, y, z) in enumerate(WATER_SITES[site]):
+        lines.append(fixtures.atom_line(900 + k, "O", "HOH", "W", 50 + k, x, y, z, record="HETATM"))
+    try:
+        bm, defn = fixtures.prepared(lines)
+        args = fixtures.Args(ff=ff, pka_method=None, debump=debump, opt=opt)
+        main.non_trivial(args, bm, None, defn, False)
+    except (ValueError, KeyError, TypeError, AttributeError) as e:
+        eng.check(True, "loud-failure-tolerated", note=type(e).__name__)
+        return
+    ref = fixtures.pristine_definition().map["WAT"].map
+    d_oh = utilities.distance(ref["O"].coords, ref["H1"].coords)
+    d_hh = utilities.distance(ref["H1"].coords, ref["H2"].coords)
+    for r in bm.residues:
+        if r.name not in ("WAT", "HOH"):
+            continue
+        o = r.get_atom("O")
+        hs = [a for a in r.atoms if a.is_hydrogen]
+        eng.check(len(hs) == 2, "water-has-two-hydrogens", note=f"{r} ({site}, opt={opt}): hydrogens {[a.name for a in hs]}")
+        for h in hs:
+            d = utilities.distance(h.coords, o.coords)
+            eng.check(bool(abs(d - d_oh) < 0.12), "hydrogen-at-template-distance-from-its-topology-parent", note=f"{r} {h.name}: {d:.2f} A from O (template {d_oh:.2f} A); water site {site}, opt={opt}, debump={debump}")
+        if len(hs) == 2:
+            d = utilities.distance(hs[0].coords, hs[1].coords)
+            eng.check(bool(abs(d - d_hh) < 0.25), "water-angle-as-in-template", note=f"{r}: H-H {d:.2f} A (template {d_hh:.2f} A); water site {site}, opt={opt}")
+
+
 def obligations(tier):
     obs = c04.obligations(tier, prop="C05")
     groups = [("ALA", "CB"), ("LYS", "NZ"), ("MET", "CE")] if tier == "quick" else [("ALA", "CB"), ("LYS", "NZ"), ("MET", "CE"), ("VAL", "CG1"), ("VAL", "CG2"), ("THR", "CG2"), ("LEU", "CD1"), ("ILE", "CG2"), ("ILE", "CD1")]
@@ -455,6 +497,8 @@ def obligations(tier):
     for r in ("ASH", "GLH", "SER", "TYR") if tier == "quick" else ("ASH", "GLH", "SER", "THR", "TYR", "ASN", "GLN", "HIS", "LYS"):
         for ff in ("parse",) if tier == "quick" else ("parse", "amber"):
             obs.append(Obligation(f"added-geometry-{r}-{ff}", h_added_geometry, dict(resname=r, ff=ff), group="added-geometry", time_cap=1500))
+    for ff in ("parse",) if tier == "quick" else ("parse", "amber", "charmm"):
+        obs.append(Obligation(f"added-water-{ff}", h_added_water, dict(ff=ff), group="added-geometry", time_cap=1500))
     for n in (2, 3) if tier == "quick" else (2, 3, 4):
         obs.append(Obligation(f"gap-pointers-n{n}", h_gap_pointers, dict(n=n), group="gap-pointers", time_cap=1200))
     return obs
